@@ -30,7 +30,7 @@ func runC10(c *Ctx) {
 	c.importRules(runC12, "C12", map[string]string{"copy": "cache-isolation", "before-opt": "cache-before-opt"})
 	// the scope is the prefix length of the matched range point OF THIS MAP: the range-point key layout (marker, map id,
 	// address, length) must be what the driver compares and slices (seed c10g)
-	c.importRules(runC03, "C03", map[string]string{"layout": "rangepoint-layout"})
+	c.importRules(runC03, "C03", map[string]string{"layout": "rangepoint-layout", "map-walk": "map-walk"})
 }
 
 func ecsType(c *Ctx) types.Type { return namedType(c, dnsPkg, "EDNS0_SUBNET") }
